@@ -107,6 +107,9 @@ type subject struct {
 	disk   *db.MemDatabase
 	nodedb *trie.NodeDatabase
 	t      *trie.Trie
+	// the root of every version committed by the history (one per "C", "R", "X" call, in order;
+	// the zero hash when the commit failed)
+	versions []common.Hash
 }
 
 func newSubject() *subject {
@@ -172,15 +175,21 @@ func (s *subject) apply(c call) (r result) {
 		h := s.t.Hash()
 		r.res = trieutil.Hex(h[:])
 	case "C":
+		s.versions = append(s.versions, common.Hash{})
 		h, err := s.t.Commit(nil)
 		r.err = err != nil
 		r.res = trieutil.Hex(h[:])
+		if err == nil {
+			s.versions[len(s.versions)-1] = h
+		}
 	case "R": // a new Trie over the same NodeDatabase
+		s.versions = append(s.versions, common.Hash{})
 		h, err := s.t.Commit(nil)
 		if err != nil {
 			r.err = true
 			return
 		}
+		s.versions[len(s.versions)-1] = h
 		t, err := trie.NewTrie(h, s.nodedb)
 		if err != nil {
 			r.err = true
@@ -189,11 +198,13 @@ func (s *subject) apply(c call) (r result) {
 		s.t = t
 		r.res = trieutil.Hex(h[:])
 	case "X": // flush to the disk store, forget every cache, re-open
+		s.versions = append(s.versions, common.Hash{})
 		h, err := s.t.Commit(nil)
 		if err != nil {
 			r.err = true
 			return
 		}
+		s.versions[len(s.versions)-1] = h
 		if err := s.nodedb.Commit(h, false); err != nil {
 			r.err = true
 			return
@@ -208,6 +219,16 @@ func (s *subject) apply(c call) (r result) {
 		r.res = trieutil.Hex(h[:])
 	case "L":
 		s.t.SetCacheLimit(uint16(c.V))
+	case "P": // NodeDatabase.Cap: flush the oldest cached nodes to disk and drop them from memory
+		size, _ := s.nodedb.Size()
+		limit := common.StorageSize(0)
+		switch c.V {
+		case 1:
+			limit = size / 2
+		case 2:
+			limit = size * 3 / 4
+		}
+		r.err = s.nodedb.Cap(limit) != nil
 	default:
 		vutil.Fatalf("unknown op %q", c.Op)
 	}
@@ -312,7 +333,8 @@ func stage(p map[string]interface{}, name string, f func()) {
 func project(s *subject) map[string]interface{} {
 	p := map[string]interface{}{"panic": "", "memOK": false, "mem": specNode(nil), "hash": "none", "gets": make([]int, nKeys),
 		"iter": []interface{}{}, "iterErr": true, "nit": []interface{}{}, "nitErr": true, "commit": "none", "commitErr": true,
-		"storedOK": false, "tree": specNode(nil), "hashed": []interface{}{}, "ref": "undecodable", "fresh": "none"}
+		"storedOK": false, "tree": specNode(nil), "hashed": []interface{}{}, "ref": "undecodable", "fresh": "none",
+		"vsame": []interface{}{}, "vsameIter": []interface{}{}, "vfresh": []interface{}{}}
 	get := func(h []byte) ([]byte, bool) {
 		b, err := s.nodedb.Node(common.BytesToHash(h))
 		return b, err == nil && len(b) > 0
@@ -389,7 +411,48 @@ func project(s *subject) map[string]interface{} {
 		p["hashed"] = hp
 		p["ref"] = trieutil.Hex(trieutil.Root(stored))
 	})
-	// 7. the real root of a fresh real trie holding the observed pairs, sorted inserts
+	// 7. every version the history committed, re-opened on the same NodeDatabase and on a fresh
+	//    NodeDatabase over the same disk store: lookups of all keys, iteration
+	vsame, vsameIter, vfresh := []interface{}{}, []interface{}{}, []interface{}{}
+	readVersion := func(root common.Hash, ndb *trie.NodeDatabase) ([]int, []interface{}) {
+		gets := make([]int, nKeys)
+		for i := range gets {
+			gets[i] = failed
+		}
+		pairs := []interface{}{[]int{failed, failed}}
+		func() {
+			defer func() { recover() }()
+			if root == (common.Hash{}) {
+				return
+			}
+			t, err := trie.NewTrie(root, ndb)
+			if err != nil {
+				return
+			}
+			for k := 1; k <= nKeys; k++ {
+				if v, err := t.TryGet(keyBytes[k]); err == nil {
+					gets[k-1] = valID(v)
+				}
+			}
+			ps := []interface{}{}
+			it := trie.NewIterator(t.NodeIterator(nil))
+			for it.Next() {
+				ps = append(ps, []int{keyID(it.Key), valID(it.Value)})
+			}
+			if it.Err == nil {
+				pairs = ps
+			}
+		}()
+		return gets, pairs
+	}
+	for _, root := range s.versions {
+		g, it := readVersion(root, s.nodedb)
+		vsame, vsameIter = append(vsame, g), append(vsameIter, it)
+		g2, _ := readVersion(root, trie.NewDatabase(s.disk))
+		vfresh = append(vfresh, g2)
+	}
+	p["vsame"], p["vsameIter"], p["vfresh"] = vsame, vsameIter, vfresh
+	// 8. the real root of a fresh real trie holding the observed pairs, sorted inserts
 	stage(p, "fresh", func() {
 		f := newSubject()
 		ks := make([]int, 0, len(pairs))
